@@ -79,6 +79,10 @@ def make_known_attributor(known, site):
             for e in ents:
                 if e.get('ob') not in (None, o['name']):
                     continue
+                if e.get('ob_regex') is not None:
+                    import re
+                    if not re.fullmatch(e['ob_regex'], o['name']):
+                        continue
                 if e.get('exc_regex') is not None:
                     import re
                     if not re.search(e['exc_regex'], str(o.get('exc', ''))):
